@@ -198,7 +198,8 @@ Qed.
 Lemma temp_spill_sweep :
   forallb (fun v => forallb (fun s : bool =>
      let t := N.shiftl v 5 in let w := t + b2n s 4 in
-     (w <? 65536) && (N.land w 0xFFE0 =? t) && Bool.eqb (bit w 4) s) [true; false]) (below 2048) = true.
+     (w <? 65536) && (N.land w 0xFFE0 =? t) && Bool.eqb (bit w 4) s && (N.land w 0xFF00 =? N.land t 0xFF00))
+     [true; false]) (below 2048) = true.
 Proof. vm_compute. reflexivity. Qed.
 
 Lemma enc_temp_shift_sweep :
@@ -214,6 +215,10 @@ Qed.
 
 Lemma dec_temp_shift_sweep :
   forallb (fun v => (dec_temp (N.shiftl v 5) =? Z.of_N v - 500)%Z) (below 2048) = true.
+Proof. vm_compute. reflexivity. Qed.
+
+(* temperatures up to 153.9 degC never put 0xFF into byte 5 *)
+Lemma b5_not_ff_sweep : forallb (fun v => negb (N.land (N.shiftl v 5) 0xFF00 =? 0xFF00)) (below 2040) = true.
 Proof. vm_compute. reflexivity. Qed.
 
 (* ------------------------------------------------------- x2B group status *)
@@ -272,26 +277,28 @@ Proof.
   b2p S3a. b2p S3b. b2p S3c. apply Bool.eqb_prop in S3d.
   (* bytes 5-6: temperature and spill *)
   assert (E5 : exists v, match temp with Some d => enc_temp d | None => Some 65280 end = Some (N.shiftl v 5) /\ v < 2048 /\
-                         (if negb sensor || (N.shiftl v 5 =? 65280) then None else Some (dec_temp (N.shiftl v 5))) = temp).
+                         (if negb sensor || (N.land (N.shiftl v 5) 65280 =? 65280) then None else Some (dec_temp (N.shiftl v 5))) = temp).
   { destruct temp as [d|].
     - apply andb_prop in Ht as [Ht Ht3]. apply andb_prop in Ht as [Ht1 Ht2]. b2p Ht2. b2p Ht3. rewrite Ht1.
       exists (Z.to_N (d + 500)). split; [apply enc_temp_shift; lia|]. split; [lia|]. cbn [negb orb].
-      assert (N.shiftl (Z.to_N (d + 500)) 5 =? 65280 = false) as ->.
-      { apply N.eqb_neq. rewrite N.shiftl_mul_pow2. change (2 ^ 5) with 32. lia. }
+      assert (N.land (N.shiftl (Z.to_N (d + 500)) 5) 65280 =? 65280 = false) as ->.
+      { pose proof (below_forall _ _ b5_not_ff_sweep (Z.to_N (d + 500)) ltac:(lia)) as S0. cbn beta in S0.
+        apply negb_true_iff in S0. exact S0. }
       pose proof (below_forall _ _ dec_temp_shift_sweep (Z.to_N (d + 500)) ltac:(lia)) as S. cbn beta in S. b2p S.
       rewrite S. f_equal. lia.
     - exists 2040. split; [reflexivity|]. split; [reflexivity|]. now rewrite orb_true_r. }
   destruct E5 as [v [E5 [Hv D5]]].
   pose proof (below_forall _ _ temp_spill_sweep v Hv) as S5. cbn beta in S5. rewrite forallb_forall in S5.
   specialize (S5 spill ltac:(destruct spill; cbn; auto)). cbn zeta in S5.
-  apply andb_prop in S5 as [S5 S5c]. apply andb_prop in S5 as [S5a S5b]. b2p S5a. b2p S5b. apply Bool.eqb_prop in S5c.
+  apply andb_prop in S5 as [S5 S5d]. apply andb_prop in S5 as [S5 S5c]. apply andb_prop in S5 as [S5a S5b].
+  b2p S5a. b2p S5b. apply Bool.eqb_prop in S5c. b2p S5d.
   unfold enc_group_status1. cbn [gs_power gs_group gs_method gs_damper gs_setpoint gs_battery gs_turbo gs_temp gs_spill gs_sensor].
   rewrite Es, E5. cbn [obind].
   assert (Hb4 : b2n sensor 7 < 256 /\ bit (b2n sensor 7) 7 = sensor) by (destruct sensor; split; reflexivity).
   destruct Hb4 as [Hb4 Db4].
   rewrite (pack_B_ok _ S1a), (pack_B_ok _ S2a), (pack_B_ok _ S3a), (pack_B_ok _ Hb4), (pack_H_ok _ S5a). cbn [obind app].
   eexists. split; [reflexivity|]. split; [reflexivity|].
-  unfold dec_group_status1. rewrite be16_div_mod, S1b, S1c, S2b, S2c, S3b, S3c, S3d, S5b, S5c, Db4, gpower_rt, gmethod_rt, battery_rt.
+  unfold dec_group_status1. rewrite be16_div_mod, S1b, S1c, S2b, S2c, S3b, S3c, S3d, S5b, S5c, S5d, Db4, gpower_rt, gmethod_rt, battery_rt.
   cbn [obind]. rewrite D5, Ds. reflexivity.
 Qed.
 
